@@ -75,7 +75,7 @@ func TestReplayC03ReportHeader(t *testing.T) {
 		{"violation": {"has-c"}, "warning": {"has-c"}, "info": {"has-c", "has-t"}},
 		{"violation": {"has-t"}, "warning": {"has-d"}},
 	}
-	names := []string{"P", `The "strict" profile`, "perfil de validación"}
+	names := []string{"P", `The "strict" profile`, "perfil de validación", "  padded with blanks  ", "ends in a tab\t"}
 	for ci, cfg := range configs {
 		for mi, mix := range mixes {
 			name := names[(ci+mi)%len(names)]
@@ -139,5 +139,65 @@ func TestReplayC03ReportHeader(t *testing.T) {
 				}
 			}
 		}
+	}
+}
+
+// Validation names are data as well: a result carries the severity of the level under which ITS validation is listed, whatever
+// characters the name has (a name that is altered on the way can no longer be told from another validation's).
+func TestReplayC03ValidationNames(t *testing.T) {
+	sev := map[string]string{"violation": "http://www.w3.org/ns/shacl#Violation", "warning": "http://www.w3.org/ns/shacl#Warning", "info": "http://www.w3.org/ns/shacl#Info"}
+	names := map[string]string{`field "id" is required`: "warning", `field 'id' is required`: "violation", "  padded  ": "info", "100% sure": "warning", `back\slash`: "info"}
+	p := "#%Validation Profile 1.0\nprofile: Names\nprefixes:\n  ex: http://example.org/\n"
+	for _, level := range []string{"violation", "warning", "info"} {
+		p += level + ":\n"
+		for n, l := range names {
+			if l == level {
+				q, _ := json.Marshal(n)
+				p += "  - " + string(q) + "\n"
+			}
+		}
+	}
+	p += "validations:\n"
+	for n := range names {
+		q, _ := json.Marshal(n)
+		p += "  " + string(q) + ":\n    targetClass: ex.T\n    message: m\n    propertyConstraints:\n      ex.zzz:\n        minCount: 1\n"
+	}
+	rep, err := ValidateWithConfiguration(p, c03Data, false, nil, c03Config{time.Date(2001, 2, 3, 4, 5, 6, 0, time.UTC)}, c.DefaultReportConfiguration())
+	if err != nil {
+		t.Errorf("C03 violated: validation names %v: no report: %v", names, strings.Split(err.Error(), "\n")[0])
+		return
+	}
+	var doc []map[string]any
+	if json.Unmarshal([]byte(rep), &doc) != nil || len(doc) == 0 {
+		t.Errorf("C03 violated: validation names: unreadable report")
+		return
+	}
+	r := doc[0]["doc:encodes"].([]any)[0].(map[string]any)
+	seen := map[string]int{}
+	res, _ := r["result"].([]any)
+	for _, x := range res {
+		m, ok := x.(map[string]any)
+		if !ok {
+			t.Errorf("C03 violated: validation names: a result entry is %v", x)
+			continue
+		}
+		n := fmt.Sprint(m["sourceShapeName"])
+		level, known := names[n]
+		if !known {
+			t.Errorf("C03 violated: a result names the validation %q, which the profile does not list under any level (listed: %v)", n, names)
+			continue
+		}
+		seen[n]++
+		if m["resultSeverity"] != sev[level] {
+			t.Errorf("C03 violated: the validation %q is listed under %s but its result has severity %v", n, level, m["resultSeverity"])
+		}
+	}
+	for n := range names {
+		if seen[n] != 3 {
+			t.Errorf("C03 violated: the validation %q fails on three nodes but has %d results", n, seen[n])
+		}
+	}
+	if r["conforms"] != false {
+		t.Errorf("C03 violated: validation names: conforms=%v with Violation results", r["conforms"])
 	}
 }
